@@ -11,7 +11,8 @@ IMPORTS = ["Model.Objects", "Model.PodSpec", "Model.Backoff", "Model.ErsReconcil
 RULE = ("three to five real Reconciles of the ACTIVE replica set on one store, separated by sleeps of 0..3x reconcileFrequency "
         "(frequencies 0, 1, 10, 60 s), with many nodes lacking a pod; slow-start interval 1 s..1 h (and 0), additive increase "
         "as number and percent, maxParallelPodCreation 1..250; the Active condition's transition placed at multiples of the "
-        "interval -1/0/+1 s; created pods stay Pending (no kubelet) so later syncs see them. Non-trivial = at least one pod "
+        "interval -1/0/+1 s; in a third of the cases some pod creations or deletions of a sync are rejected (the sync still "
+        "counts for the spacing); created pods stay Pending (no kubelet) so later syncs see them. Non-trivial = at least one pod "
         "creation or deletion was issued in the case.")
 ASSUMPTIONS = [
     "the virtual clock moves in whole seconds and does not run backwards; stored stamps are whole seconds",
@@ -39,7 +40,7 @@ def generate(rng, tier, stats):
         interval = rng.choice([0, 1, 30, 60, 60, 3600])
         inc = rng.choice([1, 1, 2, 5, "100%", "50%", "1%", "34%", 0])
         mp = rng.choice([250, 250, 1, 2, 3])
-        force = {"scenario": "active", "n": nn, "classes": CLASSES, "no_faults": rng.random() < 0.9,
+        force = {"scenario": "active", "n": nn, "classes": CLASSES, "no_faults": rng.random() < 0.6, "fault_rate": 0.8,
                  "open_gates": rng.random() < 0.6, "annotations": {},
                  "strategy": {"reconcileFrequency": freq, "slowStartIntervalDuration": interval, "slowStartAdditiveIncrease": inc,
                               "maxParallelPodCreation": mp, "maxUnavailable": rng.choice([1, 2, "50%"])}}
@@ -57,7 +58,18 @@ def generate(rng, tier, stats):
             d = rng.choice([0, 1, max(freq - 1, 0), freq, freq + 1, 2 * freq, 3 * freq, interval, interval + 1])
             if d:
                 ops.append(K.sleep(min(d, 7200)))
-            ops.append(K.reconcile("ers", worldgen.NS, "foo-a"))
+            faults = None
+            if rng.random() < 0.2:
+                # a later sync with rejected pod calls: what it did must still be spaced from the next one
+                names = [o["metadata"]["name"] for o in c["objects"] if o["kind"] == "Node"]
+                pods = [o["metadata"]["name"] for o in c["objects"] if o["kind"] == "Pod"]
+                faults = {}
+                if names and rng.random() < 0.7:
+                    faults["create_nodes"] = rng.sample(names, rng.randint(1, len(names)))
+                if pods and rng.random() < 0.7:
+                    faults["delete_pods"] = rng.sample(pods, rng.randint(1, len(pods)))
+                wprop.bump(stats, "later sync with rejected pod calls", "yes")
+            ops.append(K.reconcile("ers", worldgen.NS, "foo-a", faults))
         c["ops"] = ops
         wprop.bump(stats, "frequency", freq)
         wprop.bump(stats, "interval", interval)
